@@ -337,7 +337,7 @@ def _binary(v):
     return all(sum(1 for p in v if p == i) in (0, 2) for i in range(len(v) + 1))
 
 
-BUDGET = dict(quick=200, thorough=1000)
+BUDGET = dict(quick=200, thorough=900)
 
 
 def harnesses(tier):
